@@ -2,7 +2,7 @@
 from common import *
 import scripts
 
-THEOREMS = []
+THEOREMS = ['content_isolation', 'result_independent_of_rest', 'consumes_only_content', 'exhausted_iff', 'short_read_fails', 'full_read_state', 'scripts_are_window']
 RULE = ("random primitive-level scripts (length <= 7; request n, take_u8, take_opt_u8, advance k<=granted, skip, slice, bytes, take_all, "
         "skip_all, slice_all, with_slice_all, remaining; n around the remaining length +-2 and huge) on primitives of length 0-40 placed "
         "first/middle/last in definite, indefinite, nested and captured parents, 3 modes, over slice/bytes/stingy/chunked sources; the "
@@ -139,5 +139,5 @@ def nontrivial(req, ans):
     return ans.startswith("ok")
 
 LEVEL = "proof"
-LEVEL_TEXT = "see THEOREMS"
-LEVEL_NOTE = ""
+LEVEL_TEXT = "Lean 4 theorems for EVERY program built from the window operations (the whole Source API of a Primitive and all its helpers; the script language is proved to be such: scripts_are_window), every content, everything that follows and any enclosing capture: the closure's observations and result are those of the same closure on the content alone (content_isolation, result_independent_of_rest - reads past the end find nothing), it consumes only content and leaves the limit at |content| - consumed (consumes_only_content), returning with unread content makes the enclosing read fail (short_read_fails), and when the exhaustion check passes the source stands exactly at the end of the value with limit 0, the state a conventional skip_all/take_all leaves (full_read_state). Correspondence: random scripts on primitives in definite/indefinite/nested/captured parents over slice/bytes/stingy/chunked sources against the model AND an independent window oracle computed by the generator; request() grants beyond the content are flagged (OVER)."
+LEVEL_NOTE = 'Trusted: Lean 4.33 kernel; axioms propext, Classical.choice, Quot.sound only; the hand-written model (lean/Bcder/Model) tied to /repo on every run by differential correspondence (tools/check.py, harness/, lean/Driver.lean); reference definitions lean/Bcder/Spec. Closures are programs over the modelled access patterns; arbitrary Rust closures that breach the Source contract (documented misuse panics) are excluded.'
